@@ -23,6 +23,7 @@ type Env struct {
 	goal       bool // true while evaluating a formula we have to prove (positive polarity)
 	assumeMode bool
 	neutral    bool
+	litAt      map[string]Term // known elements of literal sequences: term|index -> element
 	lets       []LetDef
 	nq         *int
 }
@@ -237,6 +238,11 @@ func (e *Env) eval(x Expr) Term {
 	case EIndex:
 		s := e.eval(n.X)
 		i := e.eval(n.I)
+		if e.litAt != nil {
+			if el, ok := e.litAt[s.S+"|"+i.S]; ok {
+				return el
+			}
+		}
 		if s.Sort.isSeq() {
 			r := atOf(s, i)
 			if s.GoT != nil {
@@ -496,6 +502,37 @@ func (e *Env) call(n ECall) Term {
 	case "str", "string", "b", "int":
 		need(1)
 		return arg(0)
+	case "val":
+		// val(p): the value a pointer to a non-struct points to
+		need(1)
+		pv := arg(0)
+		if pv.GoT == nil {
+			evalFail("val() of untyped pointer")
+		}
+		pt := deref(pv.GoT)
+		so, ok := sortOf(pt)
+		if !ok {
+			evalFail("val(): unsupported pointee %s", pt)
+		}
+		key := "D_" + shortTypeName(pt)
+		e.c.V.heapKeys[key] = heapKeyInfo{Owner: typeKey(pt), Field: "<pointee>", Sort: so}
+		r := sel(e.c.heapCur(e.cur, key, arrSort(so)), pv, so)
+		r.GoT = pt
+		return r
+	case "flit":
+		// the floating point constant with this (integral) value, as the code's constant
+		need(1)
+		lit, ok := n.Args[0].(EInt)
+		if !ok {
+			evalFail("flit(<integer literal>)")
+		}
+		nm := "flt_" + smtIdent(lit.V)
+		e.c.declare(fmt.Sprintf("(declare-const %s Int)", nm))
+		return Term{S: nm, Sort: SInt}
+	case "fmul":
+		need(2)
+		e.c.declare("(declare-fun flt_mul (Int Int) Int)")
+		return mk(SInt, "(flt_mul %s %s)", arg(0).S, arg(1).S)
 	case "toint":
 		// the value of a float-to-integer conversion int(x) in the code
 		need(1)
@@ -691,3 +728,56 @@ func (e *Env) call(n ECall) Term {
 
 var _ = constant.MakeBool
 var _ = strconv.Itoa
+
+// expandForall: `forall i int :: 0 <= i && i < len(X) ==> B` with X a composite literal of known elements is
+// expanded into one instance per element (labelled by the element when it is a string literal).
+func (e *Env) expandForall(x Expr) ([]Term, []string, bool) {
+	q, ok := x.(EQuant)
+	if !ok || !q.Forall || len(q.Vars) != 1 || q.Vars[0].Type != "int" {
+		return nil, nil, false
+	}
+	imp, ok := q.Body.(EBinary)
+	if !ok || imp.Op != "==>" {
+		return nil, nil, false
+	}
+	v := q.Vars[0].Name
+	var seqExpr Expr
+	var find func(g Expr)
+	find = func(g Expr) {
+		if b, ok := g.(EBinary); ok {
+			if b.Op == "&&" {
+				find(b.L)
+				find(b.R)
+				return
+			}
+			if id, isID := b.L.(EIdent); isID && id.Name == v && b.Op == "<" {
+				if c, isC := b.R.(ECall); isC && c.Fn == "len" && len(c.Args) == 1 {
+					seqExpr = c.Args[0]
+				}
+			}
+		}
+	}
+	find(imp.L)
+	if seqExpr == nil {
+		return nil, nil, false
+	}
+	st := e.eval(seqExpr)
+	elems, ok := seqLit[st.S]
+	if !ok {
+		return nil, nil, false
+	}
+	var out []Term
+	var labels []string
+	for i, el := range elems {
+		s := e.sub()
+		s.vars[v] = Term{S: fmt.Sprint(i), Sort: SInt}
+		s.litAt = map[string]Term{st.S + "|" + fmt.Sprint(i): el}
+		out = append(out, s.evalBool(imp.R))
+		lab := fmt.Sprint(i)
+		if c, ok := theLits.content(el.S); ok {
+			lab = c
+		}
+		labels = append(labels, lab)
+	}
+	return out, labels, true
+}
